@@ -292,6 +292,119 @@ func c25Step(cx *c25Ctx, st *c25State, op string) (viols []viol) {
 			}
 			return ev, true
 		}
+	case "seq":
+		// seq|acct|s or a|id|op;op[;op]: several operations on ONE controller reference in one
+		// transaction (no re-fetch in between). ops: r0 r1 (retarget), t (setTag), d (delete),
+		// g (read the controller's fields and borrow its capability at the controller's type)
+		if len(f) != 5 {
+			bad("malformed-op", op)
+			return
+		}
+		acc := f[2] == "a"
+		id, _ := strconv.ParseUint(f[3], 10, 64)
+		steps := strings.Split(f[4], ";")
+		ct := a.Ctrls[id]
+		ns, render := "storage", "T.sctl(c)"
+		if acc {
+			ns, render = "account", "T.actl(c)"
+		}
+		if ct == nil || ct.Account != acc {
+			mustOK, mayFailWhy = false, "no such live controller"
+		}
+		var sb strings.Builder
+		fmt.Fprintf(&sb, "let c = s.capabilities.%s.getController(byCapabilityID: %d)!", ns, id)
+		// walk the steps on a copy of the controller to know what the model expects
+		var sim ctrl
+		if ct != nil {
+			sim = *ct
+		}
+		deleted, useAfterDelete := false, false
+		var expLogs, expEv, norm []string
+		for i, stp := range steps {
+			if deleted {
+				useAfterDelete = true
+			}
+			if n := map[string]string{"t": "setTag", "d": "delete", "g": "read"}[stp]; n != "" {
+				norm = append(norm, n)
+			}
+			switch {
+			case (stp == "r0" || stp == "r1") && !acc:
+				np := int(stp[1] - '0')
+				if np == sim.Target {
+					norm = append(norm, "retarget-same")
+				} else {
+					norm = append(norm, "retarget-other")
+				}
+				fmt.Fprintf(&sb, "\n        c.retarget(/storage/p%d)", np)
+				sim.Target = np
+				expEv = append(expEv, fmt.Sprintf("flow.StorageCapabilityControllerTargetChanged(id: %d, address: %s, path: /storage/p%d)", id, as, np))
+			case stp == "t":
+				sb.WriteString("\n        c.setTag(\"t\")")
+				sim.Tag = "t"
+			case stp == "d":
+				sb.WriteString("\n        c.delete()")
+				deleted = true
+				if acc {
+					expEv = append(expEv, fmt.Sprintf("flow.AccountCapabilityControllerDeleted(id: %d, address: %s)", id, as))
+				} else {
+					expEv = append(expEv, fmt.Sprintf("flow.StorageCapabilityControllerDeleted(id: %d, address: %s)", id, as))
+				}
+			case stp == "g":
+				fmt.Fprintf(&sb, "\n        log(\"g%d \".concat(%s).concat(\" \").concat(c.capability.borrow<%s>() != nil ? \"1\" : \"0\"))", i, render, wantedSrc[sim.T])
+				if ct != nil && !deleted {
+					// the model's view at this point of the transaction
+					saved := *ct
+					*ct = sim
+					b := "0"
+					if m.borrowOK(capv{ai, id, sim.T}, wanted[sim.T]) {
+						b = "1"
+					}
+					r := m.sctl(ai, ct)
+					if acc {
+						r = m.actl(ai, ct)
+					}
+					*ct = saved
+					expLogs = append(expLogs, fmt.Sprintf("g%d %s %s", i, r, b))
+				}
+			default:
+				bad("malformed-op", op)
+				return
+			}
+		}
+		body = sb.String()
+		if useAfterDelete {
+			// the sentence does not say what using a controller reference after delete() does
+			// (fail, or have no effect): either is accepted - but the controller must be gone
+			mustOK, mayFailWhy, ambiguous = false, "use after delete", true
+		}
+		sigClass = map[bool]string{false: "storage-controller:", true: "account-controller:"}[acc] + strings.Join(norm, ";")
+		onResult = func(res *rt.Result, logs []string) ([]string, bool) {
+			if !res.OK() {
+				return nil, false
+			}
+			if ct == nil || ct.Account != acc {
+				bad("dead-controller-returned", "getController returned a controller the model does not have")
+				return nil, false
+			}
+			if deleted {
+				delete(a.Ctrls, id)
+			} else {
+				*ct = sim
+			}
+			if useAfterDelete {
+				return nil, false
+			}
+			var got []string
+			for _, l := range logs {
+				if len(l) > 1 && l[0] == 'g' && l[1] >= '0' && l[1] <= '9' {
+					got = append(got, l)
+				}
+			}
+			if !equalStrings(got, expLogs) {
+				bad("controller-read-in-sequence|"+sigClass, fmt.Sprintf("the reference reads %v, model %v", got, expLogs))
+			}
+			return expEv, true
+		}
 	case "pub":
 		c, ok := parseShortCap(f[2])
 		q, _ := strconv.Atoi(f[3])
@@ -507,6 +620,11 @@ func c25Step(cx *c25Ctx, st *c25State, op string) (viols []viol) {
 	cx.eval()
 	logs := unquoteLogs(res.Logs)
 	if !res.OK() {
+		if !mustOK && (res.Class == "internal" || res.Class == "gopanic" || res.Class == "escaped-panic") {
+			// where the model allows the operation to be refused, it must be refused as a user-level failure
+			bad("internal-failure|"+sigClass+"|"+res.Class, fmt.Sprintf("%s (%s): %s %s: %s", "the operation may fail, but not with an internal error", mayFailWhy, res.Class, res.Kind, res.ErrString()))
+			return
+		}
 		if mustOK {
 			bad("failed|"+sigClass+"|"+res.Class, fmt.Sprintf("the model says the operation succeeds; got %s %s: %s", res.Class, res.Kind, res.ErrString()))
 		} else {
@@ -882,11 +1000,35 @@ func c25Ops(m *model, thorough bool) []string {
 					add("atag|%d|%d", ai, id)
 				}
 				add("adel|%d|%d", ai, id)
+				if full {
+					add("seq|%d|a|%d|t;d", ai, id)
+					add("seq|%d|a|%d|d;t", ai, id)
+					if thorough {
+						add("seq|%d|a|%d|d;d", ai, id)
+						add("seq|%d|a|%d|t;g", ai, id)
+						add("seq|%d|a|%d|d;g", ai, id)
+					}
+				}
 				continue
 			}
 			add("retarget|%d|%d|%d", ai, id, 1-c.Target)
 			if thorough {
 				add("retarget|%d|%d|%d", ai, id, c.Target)
+			}
+			// several operations on one controller reference
+			if full {
+				o, h := 1-c.Target, c.Target
+				seqs := []string{
+					fmt.Sprintf("r%d;d", o), fmt.Sprintf("r%d;r%d;g", o, h), fmt.Sprintf("r%d;g", o),
+					"t;d", "d;g", fmt.Sprintf("d;r%d", o), fmt.Sprintf("r%d;t;g", o),
+				}
+				if thorough {
+					seqs = append(seqs, fmt.Sprintf("r%d;d", h), fmt.Sprintf("r%d;r%d;d", o, h), "d;t", "d;d", "t;g",
+						fmt.Sprintf("t;r%d;d", o), fmt.Sprintf("r%d;r%d;g", o, o))
+				}
+				for _, sq := range seqs {
+					add("seq|%d|s|%d|%s", ai, id, sq)
+				}
 			}
 			if c.Tag == "" && full {
 				add("tag|%d|%d", ai, id)
@@ -1060,7 +1202,7 @@ func init() {
 	mc.Register(&mc.Check{
 		ID: "C25",
 		Rule: "explicit-state BFS (depth 3 from the empty state, depth 2 from 5 seeded states of 3-6 operations; the thorough tier widens the alphabet) over one-operation transactions on 2 accounts x 2 storage paths x 2 public paths: " +
-			"save/load R|S at targets, storage issue/issueWithType over {&R,&{RI},auth(E)&R,&S}, account issue, retarget, setTag, delete, publish/unpublish, inbox publish/unpublish<T>/claim<T>; " +
+			"save/load R|S at targets, storage issue/issueWithType over {&R,&{RI},auth(E)&R,&S}, account issue, retarget, setTag, delete, sequences of 2-3 of retarget/setTag/delete/read on ONE controller reference (retarget->delete, retarget->retarget, setTag->delete, delete->use ...), publish/unpublish, inbox publish/unpublish<T>/claim<T>; " +
 			"after every committed transaction an observer script in a fresh runtime reads getController(s)/forEachController of both namespaces, exists, and for every published path x 8 wanted types get<T> (then borrow/check of the result against all 8 types) and capabilities.borrow<T>, and borrow/check x 8 types of every capability value kept in storage; compared with the Go controller model, events compared per transaction; both engines. " +
 			"non-trivial = distinct (state class of a capability, probe pattern with at least one success), valid get results, inbox values returned",
 		Assumptions: []string{
